@@ -42,7 +42,7 @@ RULE = ("Hypothesis draws (a) folders of 1-5 files: synthetic HDF5 files with 1-
         "populated group; (c) a map file (synthetic: grid 1x1..4x4, 1-12 curves on distinct pixels in "
         "scrambled order, grid index written or derived from position with +-0.3 px jitter, off-centre "
         "non-square extents; or one of 3 recorded maps), API QMap(load_group) / QMap(IndentationGroup) / "
-        "QMap(path), and a history of 0-14 operations fit(curve, model, preprocessing, weight_cp, segment) / "
+        "QMap(path), an initial subset of curves fitted (and a subset of those rated), then a history of 0-16 operations fit(curve, model, preprocessing, weight_cp, segment) / "
         "rate(curve, regressor) / preprocess(curve, steps) / map(feature); all three feature maps are checked "
         "after the history. non-trivial = (a) at least one curve expected or a refusal expected, (b) every "
         "case, (c) at least one fit executed and one finite map value compared; distinct = distinct case record")
@@ -151,7 +151,7 @@ def st_grid(draw):
 
 
 @st.composite
-def st_synth_file(draw, with_grid=None, sizes=("small", "big"), p_lacking=0.0, max_curves=12):
+def st_synth_file(draw, with_grid=None, sizes=("small", "big"), p_lacking=False, max_curves=12):
     """{'grid': grid or None, 'curves': [cv + px + jit]}"""
     use_grid = draw(st.booleans()) if with_grid is None else with_grid
     grid = draw(st_grid()) if use_grid else None
@@ -164,9 +164,12 @@ def st_synth_file(draw, with_grid=None, sizes=("small", "big"), p_lacking=0.0, m
         n = draw(st.integers(1, max_curves))
         pix = [None] * n
     curves = []
+    # at most one curve of the file lacks both spring constant and tip position
+    # (sampled_from over-represents the first and last element: the rare choice sits in the middle)
+    lack = p_lacking and draw(st.sampled_from([False] * 5 + [True] + [False] * 5))
+    i_lack = draw(st.integers(0, n - 1)) if lack else -1
     for i in range(n):
-        lack = p_lacking > 0 and draw(st.floats(0, 1)) < p_lacking
-        cv = draw(st_cv(sizes=sizes, lacking=lack))
+        cv = draw(st_cv(sizes=sizes, lacking=(i == i_lack)))
         if grid:
             cv["px"] = list(pix[i])
             cv["jit"] = ([0.0, 0.0] if grid["mode"] == "index" or draw(st.booleans())
@@ -181,10 +184,10 @@ def st_load_case(draw):
     dirs = [[], [], ["a"], ["a", "b"], ["c"], ["c", "d"]]
     files = []
     for i in range(nfiles):
-        t = draw(st.sampled_from(["synth", "synth", "synth", "rec", "rec", "recmap", "csv", "junk"]))
+        t = draw(st.sampled_from(["synth", "synth", "rec", "junk", "recmap", "csv", "synth", "junk", "recmap", "rec", "rec", "synth"]))
         ent = {"t": t, "dir": draw(st.sampled_from(dirs)), "stem": draw(st.sampled_from(["m", "zz", "A", "0", "x y"]))}
         if t == "synth":
-            ent["file"] = draw(st_synth_file(sizes=("small",), p_lacking=0.04))
+            ent["file"] = draw(st_synth_file(sizes=("small",), p_lacking=True))
         elif t == "rec":
             ent["name"] = draw(st.sampled_from(RECORDED_SINGLE))
         elif t == "recmap":
@@ -192,10 +195,10 @@ def st_load_case(draw):
         elif t == "junk":
             ent["name"] = draw(st.sampled_from(JUNK))
         files.append(ent)
-    target = draw(st.sampled_from(["dir", "dir", "dir", "file"]))
+    target = draw(st.sampled_from(["file", "dir", "dir", "dir", "file"]))
     if target == "file":
         target = draw(st.integers(0, nfiles - 1))
-    ov = draw(st.sampled_from(["none", "none", "safe", "k", "k+safe"]))
+    ov = draw(st.sampled_from(["safe", "none", "k", "none", "k+safe"]))
     override = {}
     if "safe" in ov:
         for key in draw(st.lists(st.sampled_from(OVERRIDE_KEYS_SAFE), min_size=1, max_size=3, unique=True)):
@@ -204,7 +207,7 @@ def st_load_case(draw):
     if "k" in ov:
         override["spring constant"] = draw(st.floats(0.01, 20.0))
     return {"kind": "load", "files": files, "target": target, "override": override or None,
-            "api": draw(st.sampled_from(["load_group", "load_group", "IndentationGroup"])),
+            "api": draw(st.sampled_from(["load_group", "IndentationGroup"])),
             "with_callback": draw(st.sampled_from([True, True, True, False]))}
 
 
@@ -228,7 +231,8 @@ def st_ops(max_ops):
     rate = st.fixed_dictionaries({"op": st.just("rate"), "c": c, "reg": st.integers(0, len(REGRESSORS) - 1)})
     prep = st.fixed_dictionaries({"op": st.just("pre"), "c": c, "pre": pre})
     mp = st.fixed_dictionaries({"op": st.just("map"), "feat": st.sampled_from(sorted(FEATURES))})
-    return st.lists(st.one_of(fit0, fit0, fit, fit, rate, rate, prep, mp), min_size=0, max_size=max_ops)
+    op = st.one_of(fit0, fit0, fit, fit, fit, rate, rate, rate, prep, mp)
+    return st.sampled_from([0, 3, 8]).flatmap(lambda m: st.lists(op, min_size=m, max_size=max_ops))
 
 
 @st.composite
@@ -240,7 +244,15 @@ def st_qmap_case(draw):
         case["file"] = draw(st_synth_file(with_grid=True))
     else:
         case["name"] = draw(st.sampled_from(RECORDED_MAPS))
-    case["ops"] = draw(st_ops(14))
+    # an initial subset of the curves fitted with the plain settings, a subset of those rated,
+    # then the free history (all of it is one op list, interpreted by the oracle)
+    n = len(case["file"]["curves"]) if source == "synth" else 8
+    fitted = [j for j in range(n) if draw(st.booleans())]
+    rated = [j for j in fitted if draw(st.booleans())]
+    pre_ops = [{"op": "fit", "c": j, "model": 0, "pre": 0, "wcp": 0, "seg": 0} for j in fitted]
+    reg = draw(st.integers(0, len(REGRESSORS) - 1))
+    pre_ops += [{"op": "rate", "c": j, "reg": reg} for j in rated]
+    case["ops"] = pre_ops + draw(st_ops(16))
     return case
 
 
@@ -400,8 +412,10 @@ def _check_load(case, ctx, root, afmformats, MissingMetaDataError, nanite):
         override.pop("spring constant", None)
         override = override or None
     api = case["api"]
-    if api == "IndentationGroup" and target.is_dir():
-        api = "load_group"     # AFMGroup(path) is defined for files only
+    if api == "IndentationGroup" and (target.is_dir() or not involved):
+        # AFMGroup(path) hands the path to afmformats.load_data, which is defined for measurement
+        # files only (ValueError for a folder or an unsupported file)
+        api = "load_group"
     k_given = bool(override and "spring constant" in override)
     refuse = any(w[3] for w in involved if w[1] == "synth") or (any(w[1] == "csv" for w in involved) and not k_given)
     n_expect = sum(len(w[2]) for w in involved)
@@ -498,10 +512,7 @@ def check_append(case, ctx):
             write_synth_file(p, {"grid": None, "curves": [cv]})
             curve = afmformats.load_data(p, **nanite.read.get_load_data_modality_kwargs())[0]
         else:
-            c = to_synth(cv)
-            if not has_k:
-                c["k_write"] = False
-            curve = synth.build(c)
+            curve = synth.build(to_synth(cv))
             if not has_k:
                 curve._metadata.pop("spring constant")
         if ("spring constant" in curve.metadata) != has_k or ("tip position" in curve.columns_innate) != has_tip:
@@ -601,8 +612,8 @@ def check_maps(ctx, qm, curves, feats, desc, stats):
                           f"curve enum {idnt.enum} at pixel (x={x}, y={y}): map {got!r}, curve {want!r}"
                           + (f" (cached rating tuple {idnt.get_rating_parameters()['Rating']!r})" if feat == "rating" else ""))
                 stats["finite"] += 1
-                if got != 0:
-                    stats["max_rel"] = max(stats["max_rel"], abs(got - want) / abs(want) if want else 0.0)
+                if want != 0:
+                    stats["max_rel"] = max(stats["max_rel"], abs(got - want) / abs(want))
             else:
                 ctx.check(got != got, "value-for-curve-without-result", d,
                           f"curve enum {idnt.enum} at pixel (x={x}, y={y}) has no {feat} but map holds {got!r}")
@@ -688,12 +699,13 @@ def _check_qmap(case, ctx, root, nanite):
             raise HarnessError("recorded map with two curves on one pixel")
     if tuple(int(v) for v in qm.shape) != tuple(shape):
         raise HarnessError(f"substrate map shape {qm.shape} != metadata shape {shape}")
-    # substrate sanity: the scan-order map (afmformats' own feature) puts each enum on the derived pixel
-    so = qm.get_qmap("data: scan order", qmap_only=True)
-    for o in objs:
-        x, y = pix_by_enum[o.enum]
-        if not so[y, x] == o.enum:
-            raise HarnessError(f"afmformats places enum {o.enum} elsewhere than derived pixel {(x, y)}: {so.tolist()}")
+    # substrate sanity: afmformats' own pixel coordinates agree with the derived pixels.  (Not via the
+    # "data: scan order" map: afmformats caches that feature per id(curve) in a process-wide dict, so a
+    # curve object allocated at a recycled address shows the enum of a dead curve.)
+    coords = qm.get_coords(which="px")
+    for o, cc in zip(objs, coords):
+        if [int(cc[0]), int(cc[1])] != list(pix_by_enum[o.enum]):
+            raise HarnessError(f"afmformats places enum {o.enum} on {cc.tolist()}, derived pixel {pix_by_enum[o.enum]}")
 
     # curves in *written* order (enum j is the j-th curve of the record); ops address them modulo n
     by_enum = {o.enum: o for o in objs}
